@@ -503,6 +503,12 @@ class RemoteWorker(Worker, metaclass=RemoteWorkerMeta):
 
             incoming = self._ctrl_sock
             logger.debug('Waiting for a connect to the control socket from the parent')
+            # Do not wait for a parent which is already gone - it does not send anything through the data socket
+            # at this stage, so if there is something to read from it, the connection has been closed
+            ready = mp.connection.wait([incoming, self._socket])
+            if incoming not in ready:
+                incoming.close()
+                raise ConnectionClosedError()
             self._ctrl_sock, ctrl_peer = incoming.accept()
             set_keepalive(self._ctrl_sock, True)
             logger.details('Control sockets connected: {} <==> {}', self._ctrl_sock.getsockname(), ctrl_peer)
@@ -529,7 +535,14 @@ class RemoteWorker(Worker, metaclass=RemoteWorkerMeta):
             # Receiving runtime info is a signal for us that everything is ok
             runtime_info = self._comms.parent_end.recv()
             self._host, self._pid, self._tid, self._ident = runtime_info
-            send_msg(self._ctrl_sock, runtime_info, comment='ctrl: runtime info')
+            try:
+                send_msg(self._ctrl_sock, runtime_info, comment='ctrl: runtime info')
+            except ConnectionClosedError:
+                # the parent is gone, nobody will ever ask for this child
+                logger.info('Client disconnected right after its child was created, killing the child')
+                self._child.terminate()
+                self._child.join(1)
+                raise
             self._comms.parent_end.send(True)
             self._comms.parent_end.close()
         elif self._remote_side:
